@@ -1468,6 +1468,11 @@ func c13NilMaps(c *Ctx, g *load.G) {
 							}
 						}
 					}
+					// a definition from an existing container is fine when every path to the store has tested it (comma-ok or
+					// != nil) or has replaced it by a fresh map: decided on the normalised paths
+					if bad != "" && pathsGuardMapStore(c.pkgNorm(suffix), fd, id.Name) {
+						bad = ""
+					}
 					r.Check(bad == "", "C13-i", construct, "", g.Where(as.Pos()), "all definitions yield a fresh non-nil map", id.Name+" is "+bad+": the store panics with `assignment to entry in nil map` or writes into a map other nodes share")
 				}
 				return true
@@ -1658,4 +1663,66 @@ func reachingCallsIn(pkg *packages.Package, fd *ast.FuncDecl, target string) []*
 		}
 	}
 	return out
+}
+
+// pathsGuardMapStore: on every normalised path of fd, each store into the local map `name` happens after the local
+// was given a fresh map, or after the value it aliases was found present (ok(v)) or non-nil.
+func pathsGuardMapStore(nc *nctx, fd *ast.FuncDecl, name string) bool {
+	paths, multi := nc.normPathsNamed(fd)
+	ph, isMulti := multi[name]
+	if len(paths) == 0 {
+		return false
+	}
+	fresh := func(v string) bool {
+		return strings.HasPrefix(v, "make(") || strings.HasPrefix(v, "map[") && strings.HasSuffix(v, "}") || allocCallRe.MatchString(v)
+	}
+	for _, p := range paths {
+		cur := "" // what the local currently holds: "fresh", or the text of the aliased value
+		for i, e := range p {
+			if e.Kind != "set" {
+				continue
+			}
+			eq := strings.Index(e.Text, "=")
+			if eq < 0 {
+				continue
+			}
+			lhs, rhs := e.Text[:eq], e.Text[eq+1:]
+			if isMulti && lhs == ph {
+				if fresh(rhs) {
+					cur = "fresh"
+				} else {
+					cur = rhs
+					if strings.HasPrefix(cur, "(") && strings.HasSuffix(cur, ")") && strings.Count(cur, "(") == 1 {
+						cur = cur[1 : len(cur)-1]
+					}
+				}
+				continue
+			}
+			// a store into the local (by its number, or by the value propagated for it)
+			isStore := isMulti && strings.HasPrefix(lhs, ph+"[")
+			alias := ""
+			if !isStore && cur != "" && cur != "fresh" && (strings.HasPrefix(lhs, "("+cur+")[") || strings.HasPrefix(lhs, cur+"[")) && len(lhs) > len(cur)+2 && strings.Count(lhs, "[") > strings.Count(cur, "[") {
+				isStore, alias = true, cur
+			}
+			if !isStore {
+				continue
+			}
+			if cur == "fresh" {
+				continue
+			}
+			if alias == "" {
+				alias = cur
+			}
+			guarded := false
+			for _, f := range p[:i].facts() {
+				if f == "ok("+alias+")" || f == alias+"!=nil" {
+					guarded = true
+				}
+			}
+			if !guarded {
+				return false
+			}
+		}
+	}
+	return true
 }
